@@ -169,13 +169,16 @@ def guarded_probe(*a, **k):
         return e
 
 
-def sized_probe(P=1, mp=False):
+def sized_probe(P=1, mp=False, flag=False):
     """K=3, scripted initial labelling with cluster sizes 10/20/15 for ids 0/1/2 (largest-first order is the
     3-cycle (1,2,0), not its own inverse), real pool, num_processors = P"""
     import fast_ticc
     rng = np.random.default_rng(5150)
     parts = [rng.normal(0.0, 1.0, size=(10, 2)), rng.normal(4.0, 0.5, size=(20, 2)), rng.normal(-4.0, 0.8, size=(15, 2))]
     series = np.round(np.concatenate(parts), 3)
+    if flag:
+        # a status flag that is constant within each regime: a stacked column of exactly zero sample variance
+        series = np.column_stack([series, np.array([0.0] * 10 + [1.0] * 20 + [0.0] * 15)])
     init = [0] * 10 + [1] * 20 + [2] * 15
     if mp:
         os.environ["CUPCAKE_ENABLE_MULTIPROCESSING"] = "1"
@@ -193,6 +196,13 @@ def sized_probe(P=1, mp=False):
         return e
     finally:
         os.environ.pop("CUPCAKE_ENABLE_MULTIPROCESSING", None)
+
+
+def task_flagged(task):
+    from vlib import lib
+    lib.load("nojit")
+    (P, mp) = task
+    return result_digest(sized_probe(P, mp, flag=True))
 
 
 def task_sized(task):
@@ -230,6 +240,8 @@ def task_schedule(task):
     tp = log[0] if log else None
     arrivals = list(tp.arrivals) if tp else []
     want = [(r, i) for r in range(rounds) for i in perm] if perm is not None else None
+    if log and log[0] is None:
+        want = None          # not a process pool: nothing to schedule, the result is still compared
     pids = sorted(set(tp.pids.values())) if tp else []
     assign = tuple(tp.pids.get((0, i)) for i in range(K)) if tp else ()
     # distinct task->worker patterns (canonical: order of first appearance)
@@ -404,6 +416,16 @@ def run(ctx):
             acc.fail({"kind": "sized", "P": t[0], "multiprocessing": t[1]},
                      f"num_processors={t[0]} multiprocessing={'on' if t[1] else 'off'}: result differs from num_processors=1 "
                      f"(clusters of sizes 10/20/15)")
+    # (2d) the same with a flag column that is constant within each cluster (zero-variance stacked column)
+    flagged = [(P, mp) for mp in (False, True) for P in (1, 2, 3, 8)]
+    outs = realpool.fresh_map(task_flagged, flagged, jobs=8, timeout=120)
+    for t, o in zip(flagged, outs):
+        acc.n += 1
+        acc.nontrivial += 1
+        if o != outs[0]:
+            acc.fail({"kind": "flagged", "P": t[0], "multiprocessing": t[1]},
+                     f"num_processors={t[0]} multiprocessing={'on' if t[1] else 'off'}: result differs from num_processors=1, "
+                     f"multiprocessing off (data with a status flag constant within each cluster)")
     # (2c) worker count alone, on the probe that repopulates with the library's own draws from the global generator
     outs = realpool.fresh_map(task_repop_workers, sized, jobs=8, timeout=120)
     for t, o in zip(sized, outs):
@@ -438,7 +460,7 @@ def run(ctx):
         "exhaustive when (K!(K+1))^rounds <= 1300, else every script with <= 2 (K=3 quick: 1) non-default rounds; (2) real multiprocessing.Pool, default "
         "GMM path with seeded global RNGs: num_processors 1..8 x CUPCAKE_ENABLE_MULTIPROCESSING off/on x every "
         "feasible forced completion permutation (handshake), and for P in {K, 8} every (permutation, finished-before-the-parent-looks) script as on the virtual pool; a schedule "
-        "whose arrival log differs from its script is a harness error; (2b) num_processors 1..8 x multiprocessing off/on on a scripted K=3 probe with cluster sizes 10/20/15; (2c) num_processors 1..8 x multiprocessing off/on on the probe that repopulates with the library's own donor draws; (3) same seeds twice in one process and "
+        "whose arrival log differs from its script is a harness error; (2b) num_processors 1..8 x multiprocessing off/on on a scripted K=3 probe with cluster sizes 10/20/15; (2d) the sized probe with a status-flag column constant within each cluster, num_processors {1,2,3,8} x multiprocessing off/on; (2c) num_processors 1..8 x multiprocessing off/on on the probe that repopulates with the library's own donor draws; (3) same seeds twice in one process and "
         "across processes, for the ordinary probe and for a probe that repopulates (draws from the global Python generator); (4) every history of up to " + str(h) + " preceding calls from "
         + str(list(SHAPES)) + " before the probe, each history in its own fresh process. Oracle: complete result "
         "bitwise equal to the reference. non-trivial = non-default orders / non-empty histories")
@@ -470,6 +492,11 @@ def replay(ctx, case):
         acc.n = 1
         if outs[0] != outs[1]:
             acc.fail(case, "result depends on num_processors")
+    elif k == "flagged":
+        outs = realpool.fresh_map(task_flagged, [(1, False), (case["P"], case["multiprocessing"])])
+        acc.n = 1
+        if outs[0] != outs[1]:
+            acc.fail(case, "result depends on num_processors / multiprocessing (flag column)")
     elif k == "repop_workers":
         outs = realpool.fresh_map(task_repop_workers, [(1, False), (case["P"], case["multiprocessing"])])
         acc.n = 1
